@@ -118,6 +118,13 @@ class Report:
                     matched.append((f, k))
                 else:
                     new.append(f)
+        # a new finding whose key only says "expected construct not found here" is not positive evidence (shapekeys.py)
+        from .shapekeys import SHAPE_KEYS
+
+        unrecognised = [f for f in new if (f.rule, f.key.split(":")[0]) in SHAPE_KEYS]
+        new = [f for f in new if f not in unrecognised]
+        for f in unrecognised:
+            self.analysis_errors.append(f"{f.rule} {f.construct} [{f.key}]: the construct this rule expects was not recognised ({f.message[:160]}) — cannot decide")
         for f, k in matched:
             print(f"KNOWN-FINDING: property={self.prop} rule={f.rule} {f.construct} [{f.key}] {k.get('what', f.message)}")
         stale = [k for k in open_known if not any(k is kk for _, kk in matched)]
@@ -142,6 +149,7 @@ class Report:
             "discharged": discharged,
             "known_findings_matched": len(matched),
             "new_violations": len(new),
+            "unrecognised_shapes": [f.to_json() for f in unrecognised],
             "analysis_errors": list(self.analysis_errors),
             "samples": samples or ["(none)"],
             "rules": [
